@@ -73,6 +73,8 @@ DRIVERS = {
     "keys": lambda rng, tier: gen.gen_keys(rng, T(tier, 60, 3000)),
     "api": lambda rng, tier: gen.gen_api(rng, T(tier, 24, 400)),
     "huge": lambda rng, tier: gen.gen_huge(rng),
+    # failing updates, systematically: quick runs take one sixth of the matrix (which sixth depends on the seed)
+    "fail": lambda rng, tier: gen.gen_fail(rng, part=T(tier, (rng.randrange(6), 6), None)),
 }
 
 # property -> drivers, bounded models
@@ -80,18 +82,18 @@ CHECKS = {
     "C01": {"drivers": ["auth", "valid", "api"], "models": ["gen_secp"]},
     "C02": {"drivers": ["struct", "valid"], "models": ["gen_secp", "gen_ed", "rlp"]},
     "C03": {"drivers": ["hist_full", "auth_light", "struct", "text", "prefix", "typed_b", "nodeid", "keys", "api", "huge"], "models": ["hist_k256", "gen_ed"]},
-    "C04": {"drivers": ["valid", "struct", "hist_full", "size_full", "auth_light"], "models": ["gen_secp", "rlp"]},
-    "C05": {"drivers": ["hist", "hist_long", "size"], "models": ["hist_k256", "hist_ed", "hist_comb_secp", "hist_comb_ed", "build_ed"], "models_thorough": ["hist_sim"]},
-    "C06": {"drivers": ["hist", "size", "seq"], "models": ["hist_k256", "hist_comb_secp"]},
+    "C04": {"drivers": ["valid", "struct", "hist_full", "size_full", "auth_light", "fail"], "models": ["gen_secp", "rlp"]},
+    "C05": {"drivers": ["hist", "hist_long", "size", "fail"], "models": ["hist_k256", "hist_ed", "hist_comb_secp", "hist_comb_ed", "build_ed"], "models_thorough": ["hist_sim"]},
+    "C06": {"drivers": ["hist", "size", "seq", "fail"], "models": ["hist_k256", "hist_comb_secp"]},
     "C07": {"drivers": ["seq", "hist"], "models": ["hist_k256"]},
-    "C08": {"drivers": ["hist", "hist_long", "seq", "size"], "models": ["hist_k256", "build_k256"]},
+    "C08": {"drivers": ["hist", "hist_long", "seq", "size", "fail"], "models": ["hist_k256", "build_k256"]},
     "C09": {"drivers": ["size", "hist", "struct"], "models": ["hist_k256", "build_k256"]},
     "C10": {"drivers": ["nid", "valid", "hist", "cross", "api"], "models": ["hist_ed"]},
     "C11": {"drivers": ["cross", "struct", "auth_light", "valid", "api"], "models": ["gen_secp", "gen_ed", "hist_comb_ed"]},
     "C12": {"drivers": ["text", "hist_full", "size_full"], "models": ["text"]},
     "C13": {"drivers": ["prefix", "valid", "api"], "models": ["stream"]},
     "C14": {"drivers": ["typed_q", "typed_b", "hist_full"], "models": ["typed"]},
-    "C15": {"drivers": ["eq", "hist"], "models": ["hist_k256"]},
+    "C15": {"drivers": ["eq", "hist", "fail", "size_full"], "models": ["hist_k256"]},
     "C16": {"drivers": ["nodeid"], "models": ["nodeid"]},
     "C17": {"drivers": ["keys", "api"], "models": ["key"]},
 }
